@@ -69,17 +69,21 @@ func trimValue(value []byte, tailLength int) ([]byte, error) {
 // SaveKeyValue stores in dirtyData the data keys "touched"
 // It does not care if the data is really dirty as calling this check here will be sub-optimal
 func (tdaw *TrackableDataTrie) SaveKeyValue(key []byte, value []byte) error {
-	var identifier []byte
 	lenValue := uint64(len(value))
 	if lenValue > core.MaxLeafSize {
 		return data.ErrLeafSizeTooBig
 	}
 
+	// the stored bytes must not share memory with the caller's key/value buffers (appending to those
+	// would write into, and keep a reference to, any spare capacity they have)
+	dataToStore := make([]byte, 0, len(value)+len(key)+len(tdaw.identifier))
+	dataToStore = append(dataToStore, value...)
 	if lenValue != 0 {
-		identifier = append(key, tdaw.identifier...)
+		dataToStore = append(dataToStore, key...)
+		dataToStore = append(dataToStore, tdaw.identifier...)
 	}
 
-	tdaw.dirtyData[string(key)] = append(value, identifier...)
+	tdaw.dirtyData[string(key)] = dataToStore
 	return nil
 }
 
